@@ -19,7 +19,9 @@ RULE = ('a valid random program plus ONE injected invalidity: names / set names 
         'unsupported dtypes (int64, float16, bool, complex, str), 3-D data, zero rows, missing data sets, empty value lists, huge strings; '
         'direct data-level cases outside the program language. Distinct by (invalidity kind, program index).')
 ASSUMPTIONS = ['inputs outside the modelled domain (reported as outside_model) are judged by the strict reader only']
-PARTIAL = 'no single end-to-end theorem; see Props/C12.v for the proved components'
+PARTIAL = ('end to end over the modelled API: a returned file is well-formed (C12_api_returned_file_is_well_formed) and faithful to the '
+           'final specification state (C12_api_returned_file_is_faithful; shared sets of D12 excluded); that every invalid input of the '
+           'property text is among those the model rejects is established per run by the malformed stream, not by one theorem')
 R = specgen
 
 
